@@ -20,6 +20,8 @@ func init() {
 				Run: ruleCtxArm},
 			{ID: "C10.termination-arms", Floor: 3, Clause: "in methods of a struct, a blocking select that sends or receives on one of the struct's data channels also has a receive arm on every chan struct{} termination field of that struct it can receive from; TrySend's selects all have default",
 				Run: ruleTerminationArms},
+			{ID: "C10.trysend-order", Floor: 1, Clause: "TrySend attempts its send only on the default path of a non-blocking select over ctx.Done, streamDone and senderDone (no value can be queued behind an end the receiver may already have seen)",
+				Run: ruleTrySendOrder},
 			{ID: "C10.publish-before-signal", Floor: 5, Clause: "PipeSender.Close stores *senderErr before close(senderDone); every read of *senderErr happens in a senderDone arm; what is read is what is returned",
 				Run: rulePipePublish},
 			{ID: "C10.who-may-close", Floor: 4, Clause: "in package stream every close() is of a channel by its single designated closer: senderDone only in PipeSender.Close, streamDone only in pipeStream.Close, the Pipe data channel never; the only value source of pipeStream.Next's nil-error return is a receive from the data channel",
@@ -176,6 +178,47 @@ func ruleCtxArm(c *Ctx, r *R) {
 			r.ok(has, key, posOf(op.in), "blocking select without a "+p.Name()+".Done() arm")
 		}
 	}
+}
+
+// ruleTrySendOrder: the (non-blocking) send of TrySend is attempted only after a non-blocking check found the pipe
+// still open: otherwise a late TrySend puts a value behind the end marker and the receiver sees a value after End.
+func ruleTrySendOrder(c *Ctx, r *R) {
+	fn := c.fn("stream.PipeSender.TrySend")
+	if fn == nil {
+		r.undecided("stream.PipeSender.TrySend|missing", token.NoPos, "anchor not found")
+		return
+	}
+	var check, send *ssa.Select
+	for _, op := range chanOpsOf(fn) {
+		sel, ok := op.in.(*ssa.Select)
+		if !ok {
+			continue
+		}
+		have := map[string]bool{}
+		for _, a := range op.arms {
+			if a.send {
+				if fieldOfChan(a.ch) == "c" {
+					send = sel
+				}
+				continue
+			}
+			if a.kind == "ctx-done" {
+				have["ctx"] = true
+			} else {
+				have[fieldOfChan(a.ch)] = true
+			}
+		}
+		if have["ctx"] && have["streamDone"] && have["senderDone"] && !sel.Blocking {
+			check = sel
+		}
+	}
+	good := false
+	if check != nil && send != nil && check != send {
+		if d := selectDefaultBody(check); d != nil && d.Dominates(send.Block()) {
+			good = true
+		}
+	}
+	r.ok(good, "stream.PipeSender.TrySend|closed-check-before-send", fn.Pos(), "TrySend must first check (non-blockingly) ctx, streamDone and senderDone and attempt the send only on that select's default path: a send tried first succeeds on a closed pipe with buffer space, and the receiver gets a value after it was told about the end")
 }
 
 func prefillBoundEqualsCap(op chanOp) bool {
